@@ -79,7 +79,8 @@ let fingerprint (s : cubic vsock) =
     string_of_z s.v_ss.min_ss; string_of_z s.v_ss.max_ss; string_of_z s.v_unsegmented;
     string_of_z (retransmission_timeout s.v_rtte); string_of_z (roundtrip_time s.v_rtte);
     string_of_z (cubic_window s.v_cc); string_of_z (cubic_sshthresh s.v_cc);
-    string_of_int rk; r1; r2; r3; r4; r5; string_of_bool s.v_recovery.rv_supports_sack ]
+    string_of_int rk; r1; r2; r3; r4; r5; string_of_bool s.v_recovery.rv_supports_sack;
+    string_of_bool s.v_transport_pending ]
   ^ "|" ^ C_segs.digest s.v_segs
   ^ "|" ^ Printf.sprintf "%s,%s,%s,%s,%s%s%s%s" (string_of_z rx.filled_front) (string_of_z rx.ooq_len)
             (string_of_z rx.ooq_len_bytes) (string_of_z rx.q_len_bytes) (string_of_bool rx.disp_waker)
@@ -141,7 +142,7 @@ let obs_str (o : cubic vobs) =
       | VrRead RdEof -> "REOF" | VrRead RdErrMsg -> "RERRMSG" | VrRead RdErrDead -> "RERRDEAD"
       | VrRead RdPending -> "RPEND"
       | VrPoll _ -> "?" in
-    res ^ "/" ^ wakes_str false o.vo_self_woken o.vo_disp_woken
+    res ^ "/" ^ wakes_str false o.vo_self_woken o.vo_disp_woken ^ "/" ^ fingerprint o.vo_state
 
 let run_vsock toks =
   let a = Array.of_list toks in
@@ -159,8 +160,174 @@ let run_vsock toks =
   | Some s0 ->
     let ops = List.map parse_op (Array.to_list (Array.sub a 17 (Array.length a - 17))) in
     let tr = vtrace_cubic C_cubic.cbrt_oracle C_cubic.powf3_oracle s0 ops in
-    String.concat " " (List.map obs_str tr)
+    String.concat " " (("I:-/-/" ^ fingerprint s0) :: List.map obs_str tr)
+
+(* ------------------------------------------------------------------ parsing observations back
+   (so that the extracted Coq predicates can be evaluated on the implementation's output) *)
+let optz_of s = if s = "-" then None else Some (z_of_string s)
+let bool_of c = (c = '1')
+
+let fseg_of_string t : fseg =
+  match String.split_on_char '.' t with
+  | [sz; ab; dl; kind; rc; ls; pr; lo; ex; ha] ->
+    { fg_size = z_of_string sz; fg_abs = z_of_string ab; fg_delivered = (dl = "1");
+      fg_sent_kind = z_of_string kind; fg_retx = z_of_string rc; fg_last_sent = optz_of ls;
+      fg_probe = (pr = "1"); fg_lost = (lo = "1"); fg_expired = (ex = "1");
+      fg_sacks_after = (ha = "1") }
+  | _ -> failwith ("vsock: bad segment digest " ^ t)
+
+let vfp_of_string (fp : string) : vfp =
+  match String.split_on_char '|' fp with
+  | [core; segh; segl; rx; tx] ->
+    let c = Array.of_list (String.split_on_char ',' core) in
+    let z i = z_of_string c.(i) in
+    let state = (match int_of_string c.(0) with
+        | 0 -> SynReceived | 1 -> SynAckSent (z 1) | 2 -> Established | 3 -> FinWait1 (z 1)
+        | 4 -> FinWait2 | 5 -> LastAck (z 1, z 2) | _ -> Closed) in
+    let recovery = (match int_of_string c.(23) with
+        | 0 -> CountingDuplicates (z 24)
+        | 1 -> IgnoringUntilRecoveryPoint (z 24)
+        | _ -> Recovering { rc_recovery_point = z 24; rc_high_rxt = z 25; rc_total_retx = z 26;
+                            rc_pipe = z 27; rc_recalc = None; rc_cwnd = z 28 }) in
+    let sh = Array.of_list (String.split_on_char ',' segh) in
+    let r = Array.of_list (String.split_on_char ',' rx) in
+    let t = Array.of_list (String.split_on_char ',' tx) in
+    let tlen = List.hd (String.split_on_char ':' t.(0)) in
+    { f_state = state; f_seq_nr = z 3; f_last_sent_seq_nr = z 4; f_last_consumed = z 5;
+      f_last_sent_ack_nr = z 6; f_last_sent_window = z 7; f_last_remote_window = z 8; f_cbu = z 9;
+      f_rto_retx = z 10;
+      f_t_retransmit = optz_of c.(11); f_t_inactivity = optz_of c.(12); f_t_ack_delay = optz_of c.(13);
+      f_t_recovery_pipe = optz_of c.(14); f_t_syn_ack_resend = optz_of c.(15);
+      f_mss = z 16; f_max_ss = z 17; f_unsegmented = z 18; f_rto = z 19; f_rtt = z 20;
+      f_cc_window = z 21; f_cc_sshthresh = z 22; f_recovery = recovery;
+      f_supports_sack = (c.(29) = "1"); f_transport_pending = (c.(30) = "1");
+      f_snd_una = z_of_string sh.(0); f_seg_len_bytes = z_of_string sh.(1);
+      f_seg_offset = z_of_string sh.(2); f_seg_removed = z_of_string sh.(3);
+      f_sack_depth = z_of_string sh.(4); f_last_sack_empty = (sh.(5) = "1");
+      f_segs = (if segl = "-" then [] else List.map fseg_of_string (String.split_on_char ';' segl));
+      f_rx_ff = z_of_string r.(0); f_rx_len = z_of_string r.(1); f_rx_len_bytes = z_of_string r.(2);
+      f_rx_qbytes = z_of_string r.(3);
+      f_rx_disp_waker = bool_of r.(4).[0]; f_rx_reader_waker = bool_of r.(4).[1];
+      f_rx_reader_dropped = bool_of r.(4).[2]; f_rx_closed = bool_of r.(4).[3];
+      f_tx_len = z_of_string tlen; f_tx_cap = z_of_string t.(1);
+      f_tx_closed = bool_of t.(2).[0]; f_tx_writer_dropped = bool_of t.(2).[1];
+      f_tx_writer_shutdown = bool_of t.(2).[2]; f_tx_disp_waker = bool_of t.(2).[3];
+      f_tx_writer_waker = bool_of t.(2).[4] }
+  | _ -> failwith "vsock: bad fingerprint"
+
+let fpacket_of_string (t : string) : fpacket =
+  match String.split_on_char ',' t with
+  | [ty; seq; ack; wnd; ts; tsd; conn; sk; pl] ->
+    { fq_hdr = { ch_type = type_of (int_of_string ty); ch_conn_id = z_of_string conn;
+                 ch_ts = z_of_string ts; ch_ts_diff = z_of_string tsd; ch_wnd = z_of_string wnd;
+                 ch_seq = z_of_string seq; ch_ack = z_of_string ack;
+                 ch_sack = C_segs.parse_sack sk; ch_close_reason = None };
+      fq_plen = z_of_string (List.hd (String.split_on_char ':' pl)) }
+  | _ -> failwith ("vsock: bad packet " ^ t)
+
+let result_of_string (r : string) : poll_result =
+  match r with
+  | "PEND" -> PollPending | "OK" -> PollReadyOk | "PANIC" -> PollPanic
+  | "ERESET" -> PollReadyErr ErrStResetReceived
+  | "EMAXRETX" -> PollReadyErr ErrMaxRetransmissionsReached
+  | "EMAXSYNACK" -> PollReadyErr ErrMaxSynAckRetransmissionsReached
+  | "EINACTIVE" -> PollReadyErr ErrRemoteInactiveForTooLong
+  | "ESEND" -> PollReadyErr ErrSend
+  | "EZEROPAY" -> PollReadyErr ErrZeroPayloadStData
+  | s when String.length s > 5 && String.sub s 0 5 = "EBUG_" ->
+    let n = String.sub s 5 (String.length s - 5) in
+    let b = List.find_opt (fun b -> bug_name b = n)
+        [BugRecvInClosed; BugUnexpectedPacketInSynReceived; BugEmsgSizeNoProbe; BugInBufferComputations;
+         BugCantEnqueue; BugOffsetBeyondBufferBounds; BugRequestedLengthExceedsBufferBounds;
+         BugTruncateFront; BugInvalidMessageExpectedStDataOrFin; BugAssemblerMissingSlot; BugUnreachable] in
+    (match b with Some b -> PollReadyErr (ErrBug b) | None -> PollPanic)
+  | _ -> PollPanic      (* an error the model has no name for: treated as the worst outcome *)
+
+let has c s = String.contains s c
+
+(* tokens of one observation -> (result, disp_woken, self_woken, post fingerprint) *)
+let parse_obs (tok : string) : fresult * bool * bool * vfp =
+  if String.length tok > 2 && String.sub tok 0 2 = "P:" then
+    (match String.split_on_char '/' (String.sub tok 2 (String.length tok - 2)) with
+     | [r; pk; wk; arm; fp] ->
+       let wakes = (if has 'R' wk then [VwReader] else []) @ (if has 'W' wk then [VwWriter] else [])
+                   @ (if has 'D' wk then [VwSelf] else []) in
+       (FrPoll (result_of_string r,
+                (if pk = "-" then [] else List.map fpacket_of_string (String.split_on_char ';' pk)),
+                wakes, optz_of arm), false, false, vfp_of_string fp)
+     | _ -> failwith "vsock: bad poll observation")
+  else
+    (match String.split_on_char '/' tok with
+     | [r; wk; fp] ->
+       let res =
+         if r = "-" || r = "I:-" then FrNone
+         else if r = "WP" then FrWrite WrPending else if r = "WEC" then FrWrite WrErrClosed
+         else if r = "WES" then FrWrite WrErrShutdown else if r = "WED" then FrWrite WrErrDropped
+         else if r = "UOK" then FrUnit UrOk else if r = "UPEND" then FrUnit UrPending
+         else if r = "UERR" then FrUnit UrErr
+         else if r = "REOF" then FrReadEof else if r = "RERRMSG" then FrReadErrMsg
+         else if r = "RERRDEAD" then FrReadErrDead else if r = "RPEND" then FrReadPending
+         else if r.[0] = 'W' then FrWrite (WrOk (z_of_string (String.sub r 1 (String.length r - 1))))
+         else if r.[0] = 'R' then
+           FrReadBytes (z_of_string (List.hd (String.split_on_char ':' (String.sub r 1 (String.length r - 1)))))
+         else failwith ("vsock: bad result " ^ r) in
+       (res, has 'D' wk, has 'W' wk, vfp_of_string fp)
+     | _ -> failwith ("vsock: bad observation " ^ tok))
+
+let config_of a : vconfig =
+  let z i = z_of_string a.(i) in
+  let incoming = a.(0) = "in" in
+  { vc_incoming = incoming; vc_ipv4 = (a.(1) = "1"); vc_link_mtu = z 2; vc_rx_buf = z 3;
+    vc_tx_init = z 4; vc_tx_max = z 5; vc_nagle = (a.(6) = "1"); vc_max_retx = z 7;
+    vc_inactivity = z 8; vc_wait_last_ack = (a.(9) = "1"); vc_mtu_probe_max_retx = z 10;
+    vc_isn = z 11; vc_remote_seq = z 12; vc_remote_conn_id = z 13; vc_remote_wnd = z 14;
+    vc_remote_ts = z 15; vc_syn_sent = Z0; vc_now0 = (if incoming then Z0 else z 16) }
+
+(* case tokens + observation tokens -> the list of steps *)
+let steps_of (case : string list) (obs : string list) : vconfig * fstep list =
+  let a = Array.of_list case in
+  let cfg = config_of a in
+  let ops = List.map parse_op (Array.to_list (Array.sub a 17 (Array.length a - 17))) in
+  match obs with
+  | [] -> (cfg, [])
+  | init :: rest ->
+    let (_, _, _, fp0) = parse_obs init in
+    let rec go now pre ops obs acc =
+      match ops, obs with
+      | o :: ops', t :: obs' ->
+        if t = "PANIC" then List.rev acc else
+        let (res, dw, sw, post) = parse_obs t in
+        let now' = (match o with VoSetNow t -> t | _ -> now) in
+        go now' post ops' obs'
+          ({ fs_now = now'; fs_pre = pre; fs_event = fevent_of o; fs_result = res;
+             fs_disp_woken = dw; fs_self_woken = sw; fs_post = post } :: acc)
+      | _, _ -> List.rev acc in
+    (cfg, go cfg.vc_now0 fp0 ops rest [])
+
+(* registry of the extracted property predicates, by name.
+   step-local: vconfig -> fstep -> bool ; trace-level: vconfig -> fstep list -> bool *)
+let step_preds : (string * (vconfig -> fstep -> bool)) list = [
+]
+let trace_preds : (string * (vconfig -> fstep list -> bool)) list = [
+]
+
+(* vsock_pred <name> <case tokens> | <observations> *)
+let run_vsock_pred toks =
+  match toks with
+  | name :: rest ->
+    let (case, obs) = split_bar [] rest in
+    let (cfg, steps) = steps_of case obs in
+    (match List.assoc_opt name step_preds, List.assoc_opt name trace_preds with
+     | Some p, _ ->
+       let rec first i = function
+         | [] -> None
+         | st :: r -> if p cfg st then first (i + 1) r else Some i in
+       (match first 0 steps with None -> "OK" | Some i -> Printf.sprintf "FAIL %s step=%d" name i)
+     | None, Some p -> if p cfg steps then "OK" else "FAIL " ^ name
+     | None, None -> failwith ("vsock_pred: unknown predicate " ^ name))
+  | _ -> failwith "vsock_pred: bad case"
 
 let dispatch = function
+  | "vsock_pred" :: r -> Some (run_vsock_pred r)
   | "vsock" :: r -> Some (run_vsock r)
   | _ -> None
